@@ -574,8 +574,12 @@ func (m *Machine) sprintf(fr *frame, format string, args []value) value {
 			continue
 		}
 		if hasSymDeep(a) {
-			m.taint("fmt verb " + spec + " on symbolic value")
-			emit("<sym>")
+			// opaque result: tainted symbolic bytes; a branch that depends on them is inconclusive
+			for q := 0; q < 4; q++ {
+				tv := m.freshVar("taint8_", 8)
+				tv.taint = true
+				out = append(out, sym{tv, types.Uint8})
+			}
 			continue
 		}
 		emit(fmt.Sprintf(spec, m.nativeArg(fr, a, 0)))
@@ -583,9 +587,6 @@ func (m *Machine) sprintf(fr *frame, format string, args []value) value {
 	return mkstr(out)
 }
 
-func (m *Machine) taint(why string) {
-	m.inconclusive("tainted formatting: " + why)
-}
 
 func hasSymDeep(v value) bool {
 	switch v := v.(type) {
